@@ -115,6 +115,7 @@ def _coder(c, bits=True):
     vals = [1.0] + [v for row in c['spec']['mat'] for v in row]
     st = _STASH.get(jhash(c)) or {}
     runs = [st[k] for k in ('observation', 'sample') if k in st] if 'run' not in st else ([st['run']] if st['run'] else [])
+    runs = [r for r in runs if r]
     for run in runs:
         for o in run['outs']:
             vals += o
@@ -200,7 +201,8 @@ def _op(c, t):
 def run_impl(c):
     try:
         return _run_impl(c)
-    except Exception as e:  # pragma: no cover
+    except Exception as e:  # the library (or a changed kernel) failed outside the guarded call
+        _STASH[jhash(c)] = {'crash': True, 'run': None, 'pre': None}
         return {'crash': [type(e).__name__, str(e)[:300]]}
 
 
@@ -290,6 +292,8 @@ def _cs_tree(a, cd):
 
 def encode(c):
     st = _recorded(c)
+    if st.get('crash'):
+        return [3, 0, [0], [], [], [], [], []]
     cd = _coder(c, _uses_bits(c))
     tb = cd.table(T.spec_content(c['spec']))
     k = c['kind']
@@ -347,6 +351,8 @@ def _result(tr, cd):
 
 def decode(tree, c):
     st = _recorded(c)
+    if st.get('crash'):
+        return {'model': 'not run: the implementation crashed'}
     cd = _coder(c, _uses_bits(c))
     k = c['kind']
     if k == 'axis_indep':
